@@ -25,7 +25,9 @@ MANIFEST = {
                   "error_on_mean / error_weighted_mean / propagated_error and utils.calculate_covariance, and about the inferred path "
                   "of Model/Corr.v (clamped covariance). All reading arrays, all uncertainty arrays and all selector histories are "
                   "covered by induction over lists. The model is run against the implementation on every check: dyadic reading "
-                  "arrays of length 2-12 (large offsets, fine and wide spreads, lists and ndarrays), no / common / individual / "
+                  "arrays of length 2-12 (large offsets, fine and wide spreads; lists, lists of numpy scalars, mixed int / float lists, numpy "
+                  "arrays of dtype float64 / float32 / float16 / int64 / int32 / int16 with values at the precision limit of the dtype), "
+                  "no / common / individual / "
                   "partly zero uncertainties, random selector histories with a derivative-method propagation k*a+c and Monte Carlo "
                   "propagations of k*a+c and a*a (injected offsets, samples compared one by one) in every selector state, and pairs of "
                   "arrays (exactly collinear, nearly collinear, independent, unequal length, zero spread) through set_covariance / "
@@ -112,7 +114,7 @@ def run_pair(case):
     import qexpy as q
     q.reset_correlations()
     a = sl.build(["repeated", case["xs"], None, case.get("container", "list")])
-    b = sl.build(["repeated", case["ys"], None, "list"])
+    b = sl.build(["repeated", case["ys"], None, case.get("container_b", "list")])
     name = "set_covariance" if case["setter"] == "set_cov" else "set_correlation"
     try:
         with warnings.catch_warnings():
@@ -147,9 +149,15 @@ def gen_errs(rng, n):
 
 
 def gen_rmv(rng):
-    xs = sl.gen_readings(rng)
+    u = rng.random()
+    if u < 0.3:                                     # numpy arrays of a narrow dtype, values at its precision limit
+        container = rng.choice(["f32", "f32", "f16", "f16", "i64", "i32", "i16"])
+        xs = sl.gen_typed_readings(rng, container)
+    else:
+        xs = sl.gen_readings(rng)
+        container = sl.pick_container(rng, xs, 0.35)
     sels = [rng.choice(["std", "eom", "ewm", "perr"]) for _ in range(rng.choice([0, 1, 2, 3, 4, 6, 9]))]
-    return {"xs": [hx(x) for x in xs], "errs": gen_errs(rng, len(xs)), "container": rng.choice(["list", "ndarray"]),
+    return {"xs": [hx(x) for x in xs], "errs": gen_errs(rng, len(xs)), "container": container,
             "k": hx(sl.dyadic(rng, 4, 2, nonzero=True)), "c": hx(sl.dyadic(rng, 5, 1)), "sels": sels,
             "offsets": [hx(o) for o in sl.gen_offsets(rng)], "mc_seed": rng.randrange(2 ** 32)}
 
@@ -178,11 +186,13 @@ def gen_pair(rng):
         ys = [sl.dyadic(rng, 5, 1)] * n
         kind = "zero-spread"
     case = {"xs": [hx(x) for x in xs], "ys": [hx(y) for y in ys], "setter": rng.choice(["set_cov", "set_corr"]),
-            "form": rng.choice(["fn", "meth"]), "container": rng.choice(["list", "ndarray"]), "kind": kind}
+            "form": rng.choice(["fn", "meth"]), "container": sl.pick_container(rng, xs, 0.35),
+            "container_b": sl.pick_container(rng, ys, 0.35), "kind": kind}
     if k is not None:
         case["k"] = hx(k)
     if rng.random() < 0.3:
         case["xs"], case["ys"] = case["ys"], case["xs"]
+        case["container"], case["container_b"] = case["container_b"], case["container"]
         if "k" in case:            # xs = (ys - c)/k: still collinear, the slope has the same sign
             case["k"] = hx(math.copysign(1.0, k))
     return case
@@ -201,7 +211,7 @@ def gen_ctor(rng):
         errs[rng.randrange(n)] = -sl.dyadic(rng, 4, 3, positive=True, nonzero=True)
     else:
         errs = [sl.dyadic(rng, 4, 3, positive=True) for _ in range(n)]
-    return {"xs": [hx(x) for x in xs], "errs": [hx(e) for e in errs], "container": rng.choice(["list", "ndarray"])}
+    return {"xs": [hx(x) for x in xs], "errs": [hx(e) for e in errs], "container": sl.pick_container(rng, xs, 0.3)}
 
 
 def run_ctor(case):
@@ -282,6 +292,7 @@ def correspondence(ctx):
         ek = "none" if e is None else ("common" if isinstance(e, str) else
                                        ("individual-with-zero" if any(fx(h) == 0 for h in e) else "individual"))
         res.count("rmv:n={}".format(len(case["xs"])))
+        res.count("rmv:container:" + case.get("container", "list"))
         res.count("rmv:uncertainties:" + ek)
         for s, w, _, _, _ in hist:
             res.count("selector:{}:{}".format(s, "warned" if w else "applied"))
@@ -344,7 +355,9 @@ def correspondence(ctx):
     shards.append(HEADER + "Definition cases := {}.\nEval vm_compute in (bad_indices check_ctor cases).\n".format(coq_list(bodies)))
     index.append(idx)
     res.rule = ("(a) q.Measurement(readings[, uncertainties]) for dyadic reading arrays of length 2-12 (small / large offset / fine / "
-                "wide / exact-std, list or ndarray; no, common, individual, partly zero or very unequal uncertainties): raw_data, "
+                "wide / exact-std; list, list of numpy scalars, mixed int / float list, or numpy array of dtype float64 / float32 / float16 / "
+                "int64 / int32 / int16 with values exactly representable in the dtype, biased to its precision limit such as 2^24 for "
+                "float32; no, common, individual, partly zero or very unequal uncertainties): raw_data, "
                 "mean, std, error_on_mean, error_weighted_mean, propagated_error, value, error of the fresh object and after each "
                 "call of a random use_* history (0-9 calls), the warning flag, value / error of k*a+c computed afterwards by the "
                 "derivative method, and in every state the Monte Carlo samples of k*a+c and a*a retrieved with injected dyadic "
